@@ -192,6 +192,14 @@ static void PlatformSpecificRestoreJumpBufferImplementation()
     jmp_buf_index--;
 }
 
+#ifdef CPPUTEST_VERIF_HOOKS
+/* verification hook (read only): current depth of the setjmp buffer stack */
+int cpputest_verif_jmp_buf_index(void)
+{
+    return jmp_buf_index;
+}
+#endif
+
 void (*PlatformSpecificLongJmp)() = PlatformSpecificLongJmpImplementation;
 int (*PlatformSpecificSetJmp)(void (*)(void*), void*) = PlatformSpecificSetJmpImplementation;
 void (*PlatformSpecificRestoreJumpBuffer)() = PlatformSpecificRestoreJumpBufferImplementation;
